@@ -1,5 +1,6 @@
 import A2Verif.Lemmas.C15Data
 import A2Verif.Lemmas.C15Label
+import A2Verif.Lemmas.C15Range
 /-!
 # C15 — Disassembly reassembles to the identical bytes
 
@@ -205,6 +206,70 @@ example : okIs (asmAll Quirks.fixed ⟨.p65816, .m16, true, true⟩ 0x8000
 example : okIs (asmAll Quirks.fixed ⟨.p65802, .m8, true, true⟩ 0x2000
     (labelled .masked .some (dasm Quirks.fixed ⟨.p65802, true, true, false⟩ 0x2000 [0xCF, 0x00, 0x20, 0xFF, 0xF0, 0xFA, 0x60])))
     [0xCF, 0x00, 0x20, 0x00, 0xF0, 0xFA, 0x60] = true := by decide +kernel
+
+/-! ## Sub-ranges of a larger image (`DasmRange::Range([beg,end])` with `end < img.len()`, `LastBloadDos33`, `LastBloadProDos`)
+
+Everything above is about the listing of the bytes it is given.  `disassemble` is handed a whole (RAM) image and a
+range; `Model/DasmRange.lean` places the loop inside the image (`dasmImg`), with the bytes after the range at hand.
+What bounds the string look-ahead of `try_data_run` is read from the current source (`Gen.DasmLabels.lookBound`). -/
+
+/-- **The look-ahead of the current tree stops at the end of the range** (`ptr0 + n < end`), as do the scan loop,
+the operand fit of `is_instruction` and the main loop (checked syntactically by the translator).  Stops proving when
+the look-ahead is bounded by the image instead (seeded change C15-5). -/
+theorem look_bound_current_tree : lookBound = LookBound.rangeEnd := by decide
+
+/-- **Locality**: the listing of `img[beg..end]` does not depend on any byte of the image outside the range —
+it is the listing of those bytes alone. -/
+theorem range_listing_is_local (q : Quirks) (cfg : Cfg) (img : List Nat) (beg end_ : Nat) :
+    dasmImg q cfg lookBound img beg end_ = dasm q cfg beg ((img.drop beg).take (end_ - beg)) := by
+  rw [look_bound_current_tree]
+  exact dasmR_rangeEnd q cfg beg _ _
+
+/-- **The lines tile exactly `[beg, end)`** for every sub-range of every image ("accounts for every input byte exactly
+once": no byte before `beg`, none at or after `end`), every processor, MX, brk. -/
+theorem range_tiles_exactly (q : Quirks) (cfg : Cfg) (img : List Nat) (beg end_ : Nat)
+    (h1 : beg ≤ end_) (h2 : end_ ≤ img.length) (hb : ∀ x ∈ img, x < 256) :
+    Contig beg (dasmImg q cfg lookBound img beg end_) end_ := by
+  rw [range_listing_is_local]
+  have := dasm_covers_every_byte_once q cfg beg ((img.drop beg).take (end_ - beg)) (slice_bytes img beg end_ hb)
+  rw [slice_length img beg end_ h1 h2] at this
+  have e : beg + (end_ - beg) = end_ := by omega
+  rw [e] at this
+  exact this
+
+/-- **Never different bytes for every sub-range of every image**, any labeling mode: if assembling the (labelled)
+listing of `img[beg..end]` succeeds, the result is exactly `img[beg..end]` — in particular never a byte more. -/
+theorem range_reassembly_never_differs (cfg : Cfg) (ver : Ver) (lab : Labeling) (img : List Nat) (beg end_ : Nat)
+    (hc : compat cfg.proc ver = true) (h1 : beg ≤ end_) (h2 : end_ ≤ img.length) (hb : ∀ x ∈ img, x < 256)
+    (hsz : end_ ≤ 2 ^ 24) (b : List Nat)
+    (hok : asmAll Quirks.fixed ⟨cfg.proc, ver, cfg.m8, cfg.x8⟩ beg
+      (labelled labelKey lab (dasmImg Quirks.fixed cfg lookBound img beg end_)) = .ok b) :
+    b = (img.drop beg).take (end_ - beg) := by
+  rw [range_listing_is_local] at hok
+  refine reassembly_never_differs_labelled cfg ver lab beg _ hc (slice_bytes img beg end_ hb) ?_ b hok
+  rw [slice_length img beg end_ h1 h2]; omega
+
+/-- the two BLOAD ranges select a range inside the image (or are refused) -/
+theorem bload_range_inside (img : List Nat) (sa la b e : Nat) (h : bloadRange img sa la = some (b, e)) :
+    b ≤ e ∧ e ≤ img.length := by
+  unfold bloadRange at h
+  split at h
+  · simp only [] at h
+    split at h
+    · cases h
+    · cases h; omega
+  · cases h
+
+/-- text at the end of a range inside zeroed memory (6502): `JSR $FC58 / RTS / ASC 'BYE'` — three lines, 7 bytes -/
+example : okIs (asmAll Quirks.fixed ⟨.p6502, .m8, true, true⟩ 2
+    (dasmImg Quirks.fixed ⟨.p6502, true, true, false⟩ .rangeEnd [0xEA, 0xEA, 0x20, 0x58, 0xFC, 0x60, 0x42, 0x59, 0x45, 0x00, 0x00] 2 9))
+    [0x20, 0x58, 0xFC, 0x60, 0x42, 0x59, 0x45] = true := by decide +kernel
+
+/-- **A look-ahead bounded by the image violates the property** (seeded change C15-5, replayed on the real code by the
+harness): the `$00` after the range is folded into `ASC 'BYE',00` and reassembly yields one byte that was never input. -/
+example : okIs (asmAll Quirks.fixed ⟨.p6502, .m8, true, true⟩ 2
+    (dasmImg Quirks.fixed ⟨.p6502, true, true, false⟩ .imageEnd [0xEA, 0xEA, 0x20, 0x58, 0xFC, 0x60, 0x42, 0x59, 0x45, 0x00, 0x00] 2 9))
+    [0x20, 0x58, 0xFC, 0x60, 0x42, 0x59, 0x45, 0x00] = true := by decide +kernel
 
 /-! ## The unrepaired code violates the property (witnesses replayed on the real code by the harness) -/
 
